@@ -439,7 +439,12 @@ def rotations(seq, sst):
 # long random histories over all classes; slots are partitioned by kind so that the
 # generator always knows what a slot can hold
 LAYOUT = {"D": [0, 1, 2, 3], "C": [4, 5, 6], "S": [7, 8], "M": [9, 10], "R": [11, 12]}
-NSLOTS = 13
+# the results of split() go to slots 13.. (complexes only; at most 4 components with the templates below):
+# `s[dst:dst+n] = parts` must never spill into the slots of another kind, otherwise a later macrostate /
+# reaction request mixes kinds, which is outside the model
+SPLIT_DST = 13
+LAYOUT["C"] = LAYOUT["C"] + [13, 14, 15, 16]
+NSLOTS = 17
 TEMPLATES = [([0, "+", 0], ".+."), ([0, "+", 0, "+", 0], "(+)+."), ([0, 1, "+", 1, "+", 0], "((+)+)"),
              ([0, "+", 1], ".+."), ([0], "."), ([0, 1, "+", 2, 3], "((+))"), ([0, "+", 1, "+", 0, "+", 1], "(+(+)+)"),
              (["x", 1, "+", "x", 1], "..+.."), ([2, "+", 3, "+", 2, "+", 3], ".+.+.+.")]
@@ -523,7 +528,7 @@ def random_history(rng, length, classes=None, p_sub=0.3, weird=0.05):
             ops.append(rxn(rng.choice(LAYOUT["R"]), c, rs, ps, rng.choice(["bind21", "open", "condensed", None, "weird"]),
                            rng.choice([None, None, None, "r1", "r2"])))
         elif r < 0.80:
-            ops.append(split(rng.choice(LAYOUT["C"]), ref(LAYOUT["C"])))
+            ops.append(split(SPLIT_DST, ref(LAYOUT["C"])))
         elif r < 0.89:
             ops.append(drop(ref(list(range(NSLOTS)))))
         elif r < 0.95:
